@@ -38,6 +38,9 @@ def Db.add (db : Db) (_t : PtType) (_idx _cls : Nat) : Db × Bool := (db, false)
 def Db.update (db : Db) (_t : PtType) (_idx : Nat) (_value : Int) (_flags _time : Nat) : Db × UpdInfo :=
   (db, .noPoint)
 
+/-- `ReadHeader::get` returns `Some` (the header is supported in READ requests) -/
+def Db.readSupported (_h : ReadHdr) : Bool := true
+
 /-- `DatabaseHandle::select` for one header; returns the IIN2 bits it contributes -/
 def Db.select (db : Db) (_h : ReadHdr) : Db × Nat := (db, 0)
 
